@@ -7,8 +7,8 @@ CONSTANTS
   Degs <- DegsT
   MaxNpts = 5
   Acts = {"CvEq"}
-  PtKinds = {"gen"}
-  WtKinds = {"none", "gen", "gen2"}
+  PtKinds = {"gen", "flat"}
+  WtKinds = {"none", "gen", "gen2", "const"}
   ExtraNodes <- Extra0
   NodeSize = 2
   Scenario = "single"
